@@ -91,7 +91,7 @@ Definition v1_track (t : tag) : result Z :=
   match conv_get s_TRCK t with
   | None => Ok 0
   | Some f => match conv_texts_of f with
-              | [] => Raise EIndex
+              | [] => Ok 0
               | v :: _ => match conv_py_int (hd [] (split_on 47 v)) with
                           | Some n => Ok (if (0 <=? n) && (n <? 256) then n else 0)
                           | None => Ok 0
